@@ -192,6 +192,8 @@ func pcOf(s *sched, r *reader) string {
 		return "afterLookup"
 	case "wait.afterCheck":
 		return "afterCheck"
+	case "wait.subscribed":
+		return "subscribed"
 	}
 	return "parked"
 }
